@@ -3,7 +3,7 @@ from checks import _v2
 THEOREMS = __import__('checks.thm', fromlist=['x']).C07
 
 def run(ctx):
-    ctx.cov['rule'] = 'oracle: X in {exact, edited, word-trimmed at both ends, truncated 70-95%, scenario files, concatenations}; Match(X) vs Match(P + X + S) for blocks P, S of 0..180 out-of-vocabulary words over 0..20 lines: same matches with token indices and lines shifted by the size of P (compared as a multiset). model stream: planted/edited-planted inputs.' + ' Non-trivial = at least one match reported.'
+    ctx.cov['rule'] = 'oracle: X in {exact, edited, word-trimmed at both ends, truncated 70-95%, scenario files, concatenations, texts at the exact hit-density boundary of detectRuns (adaptive: the most damaged text that is still reported alone)}, X of at least q words; Match(X) vs Match(P + X + S) for blocks P, S of 0..180 out-of-vocabulary words over 0..20 lines: same matches with token indices and lines shifted by the size of P (compared as a multiset). model stream: planted/edited-planted/boundary-density/headless-fragment inputs, final Results and per-document getMatchedRanges (stage level).' + ' Non-trivial = at least one match reported.'
     ctx.cov['trusted_base'] = _v2.TB
     ctx.proof_gate(theorems=THEOREMS)
     if not ctx.build_driver():
